@@ -1482,16 +1482,28 @@ fn mul_helper_multi_zero_inclusive(
     {
         return Interval::make_unbounded(dt).unwrap();
     }
-    // Since unbounded cases are handled above, we can safely
-    // use the utility functions here to eliminate code duplication.
-    let lower = min_of_bounds(
-        &mul_bounds::<false>(dt, &lhs.lower, &rhs.upper),
-        &mul_bounds::<false>(dt, &rhs.lower, &lhs.upper),
+    // Since unbounded cases are handled above, a `NULL` corner product can
+    // only stem from an overflow, which makes the endpoint unbounded. Such a
+    // corner must win, whereas `min_of_bounds` / `max_of_bounds` would treat
+    // `NULL` as the opposite infinity and discard it.
+    let lower_corners = (
+        mul_bounds::<false>(dt, &lhs.lower, &rhs.upper),
+        mul_bounds::<false>(dt, &rhs.lower, &lhs.upper),
     );
-    let upper = max_of_bounds(
-        &mul_bounds::<true>(dt, &lhs.upper, &rhs.upper),
-        &mul_bounds::<true>(dt, &lhs.lower, &rhs.lower),
+    let lower = if lower_corners.0.is_null() || lower_corners.1.is_null() {
+        ScalarValue::try_from(dt).unwrap()
+    } else {
+        min_of_bounds(&lower_corners.0, &lower_corners.1)
+    };
+    let upper_corners = (
+        mul_bounds::<true>(dt, &lhs.upper, &rhs.upper),
+        mul_bounds::<true>(dt, &lhs.lower, &rhs.lower),
     );
+    let upper = if upper_corners.0.is_null() || upper_corners.1.is_null() {
+        ScalarValue::try_from(dt).unwrap()
+    } else {
+        max_of_bounds(&upper_corners.0, &upper_corners.1)
+    };
     // There is no possibility to create an invalid interval.
     Interval::new(lower, upper)
 }
